@@ -334,6 +334,59 @@ Definition block_diag_index2 (m n : list Z) : res (list Z * list Z) :=
   | _, Err e => Err e
   end.
 
+(* ---------------------------------------------------------------- block matrices *)
+
+Definition sum_nat (l : list nat) : nat := fold_right Nat.add 0 l.
+
+(* _csx_matrix_from_sparse_blocks for blocks that already have the requested format
+   (blocks of the other format are first converted by scipy's asformat: not modelled) *)
+Definition csx_from_sparse_blocks (blocks : list csr) : res csr :=
+  match blocks with
+  | [] => Err ValueErr                       (* np.concatenate of an empty list *)
+  | [b] => Ok b                              (* shortcut: the block itself *)
+  | _ =>
+      (* indices_offset = cumsum([0] + minor extents); indptr_offset = cumsum([0] + indptr[-1]) *)
+      let indices_offset := 0 :: cumsumN 0 (map nmin blocks) in
+      let indptr_offset := 0 :: cumsumN 0 (map (fun m => last (indptr m) 0) blocks) in
+      Ok {| nmaj := sum_nat (map nmaj blocks); nmin := sum_nat (map nmin blocks);
+            indptr := 0 :: concat (map2 (fun m o => map (fun p => p + o) (tl (indptr m))) blocks indptr_offset);
+            indices := concat (map2 (fun m o => map (fun j => j + o) (indices m)) blocks indices_offset);
+            data := concat (map data blocks) |}
+  end.
+
+(* block_diag_matrix(vals, sz): csr matrix with square diagonal blocks of sizes sz whose
+   values are given block after block, row-major *)
+Definition block_diag_matrix (vals : list Z) (sz : list nat) : res csr :=
+  (* indptr = hstack((0, cumsum(rldecode(sz, sz)))) *)
+  match rldecode sz (map Z.of_nat sz) with
+  | Err e => Err e
+  | Ok lens =>
+      Ok {| nmaj := sum_nat sz; nmin := sum_nat sz;
+            indptr := 0 :: cumsumN 0 lens;
+            indices := block_diag_index1 sz;
+            data := vals |}
+  end.
+
+(* np.tile(l, k) for a 1-D array *)
+Definition tile {E} (l : list E) (k : nat) : list E := concat (repeat l k).
+
+(* _csx_matrix_from_dense_blocks: uniform block size, values block after block, line-major *)
+Definition csx_from_dense_blocks (vals : list Z) (bs nb : nat) : res csr :=
+  if negb (length vals =? bs * bs * nb) then Err ValueErr else
+  (* indptr = np.arange(0, bs**2 * nb + 1, bs) *)
+  let ip := map (fun k => k * bs) (seq 0 (bs * nb + 1)) in
+  let idx :=
+    if 1 <? bs then
+      (* base = tile(tile(arange(bs), (bs, 1)).reshape((1, -1)), nb)[0] *)
+      let base := tile (tile (seq 0 bs) bs) nb in
+      (* block_increase = tile(arange(nb), (bs**2, 1)).reshape((1, -1), order="F")[0] * bs:
+         the F-ravel of bs**2 equal rows arange(nb) *)
+      let incr := map (fun b => b * bs)
+                      (flat_map (fun j => map (fun r => nth j r 0) (repeat (seq 0 nb) (bs * bs))) (seq 0 nb)) in
+      map2 Nat.add base incr
+    else seq 0 nb in
+  Ok {| nmaj := nb * bs; nmin := nb * bs; indptr := ip; indices := idx; data := vals |}.
+
 (* ---------------------------------------------------------------- tie helpers *)
 
 Definition eqb_lz := eqb_listZ.
